@@ -536,3 +536,35 @@ Proof.
       split; [destruct (print_nat z); [contradiction | reflexivity] | apply G; auto]. }
   destruct P as [P1 P2]. eapply write_then_parse; eauto. apply int_reads; auto.
 Qed.
+
+(* ... and a plain word written by the generator is parsed back as that word *)
+Theorem write_then_parse_word : forall c ds line k c0 w ks fuel,
+  ds_ok ds = true -> word_start c0 = true -> str_all (textchar ds) (String c0 w) = true ->
+  str_all (fun x => negb (gsep ds x)) (String c0 w) = true ->
+  reads c ds (segs ds line) ks -> (List.length ks < fuel)%nat ->
+  lex c ds fuel (sub_field ds k (String c0 w) line) = replk k (TStr (String c0 w)) ks 0.
+Proof.
+  intros. eapply write_then_parse; eauto. apply word_reads; auto.
+Qed.
+
+(* non-vacuity: a template line whose fields read as tokens, and the theorem applied to it *)
+Example reads_example :
+  reads cfg_fixed " " (segs " " ("x 7 y" ++ String nl "")) [TStr "x"; TInt 7; TStr "y"].
+Proof.
+  change (segs " " ("x 7 y" ++ String nl ""))
+    with [Run "x"; Sep " "; Run (print_int 7); Sep " "; Run "y"; Sep ("" ++ String nl "")].
+  apply reads_run; [apply word_reads; reflexivity|].
+  apply reads_sep; [reflexivity|].
+  apply reads_run; [apply int_reads; reflexivity|].
+  apply reads_sep; [reflexivity|].
+  apply reads_run; [apply word_reads; reflexivity|].
+  apply reads_eol; reflexivity.
+Qed.
+
+Example write_then_parse_example :
+  lex cfg_fixed " " 10 (sub_field " " 2 (print_int (-42)) ("x 7 y" ++ String nl ""))
+  = [TStr "x"; TInt (-42); TStr "y"].
+Proof.
+  rewrite (write_then_parse_int cfg_fixed " " _ 2 (-42) _ 10 eq_refl eq_refl reads_example) by (simpl; lia).
+  reflexivity.
+Qed.
